@@ -68,6 +68,7 @@ class Opts:
         self.whole_only = False  # C16: whole-signal connections only
         self.leaf_everywhere = False
         self.min_modules = 1
+        self.adversarial_leaf_names = False
         self.avoid_known = True  # do not construct the triggers of open known findings (counted as redirects)
         for k, v in kw.items():
             if not hasattr(self, k):
@@ -461,6 +462,13 @@ def gen_bundles(d, o):
                 flipped = d.bool(35)
                 role = d.choice([None, "A", "B"]) if out[sidx].get("roles") else None
                 subs.append([SUB_NAMES[i], sidx, flipped, d.choice(["ctor", "flipped"]) if flipped else "ctor", role])
+        if o.adversarial_leaf_names and subs and d.bool(50):
+            # a leaf whose name equals the flattened name of a member of one of the sub-bundles, e.g. `u_x`
+            sub = d.choice(subs)
+            inner = out[sub[1]]
+            target = sub[0] + "_" + d.choice([sg[0] for sg in inner["sigs"]])
+            if target not in [sg[0] for sg in sigs]:
+                d.choice(sigs)[0] = target
         out.append({"name": "B%d" % k, "sigs": sigs, "subs": subs, "roles": roles})
     return out
 
